@@ -29,7 +29,7 @@ theorem C08_function_readonly (off : Bool) (a : AMgr) (hi : AInv off a) (hs : Na
     (hh : a.handles[hs]? = some u) :
     (∀ n, fCount hs n a = (count a.m.tbl u n, a)) ∧
     (∀ care, fPick hs care a = ((pickIter a.m.tbl u care).map List.head?, a)) ∧
-    fHash hs a = (.ok u, a) ∧ fStr hs a = (.ok s!"@{u}", a) :=
+    fHash hs a = (.ok (pyHash u), a) ∧ fStr hs a = (.ok s!"@{u}", a) :=
   ⟨fun n => fCount_live a hs u n hh (hi.hmem hs u hh),
    fun care => fPick_live a hs u care hh (hi.hmem hs u hh),
    fHash_live a hs u hh, fStr_live a hs u hh⟩
